@@ -753,6 +753,9 @@ class Flow:
 
     def unknown_call(self, st: St, name: str, args: list, node: ast.Call, kw: dict | None = None) -> list[tuple[St, object]]:
         touches = any(isinstance(a, (PathRef, LRef)) for a in args)
+        if self.template and name in getattr(self, "template_helpers", {}):
+            # a helper function the generator emits next to the one under analysis (def _implicit(rule, state, pairs))
+            return self.inline(st, self.template_helpers[name], _NO_RECV, args, kw or {}, name, {})
         if touches and not self.template:
             # a module-level helper of the file under analysis that is handed the state or a pair list: inlined
             rel = self.construct.split("::")[0]
@@ -1150,7 +1153,7 @@ class Flow:
         try:
             sub_exits: list[Exit] = []
             saved_exits, self.exits = self.exits, sub_exits
-            saved_tmpl, self.template = self.template, False
+            saved_tmpl, self.template = self.template, bool(self.template and recv is _NO_RECV and label in getattr(self, "template_helpers", {}))
             try:
                 for s, sig in self.block(st, fn.body):
                     if sig is None:
